@@ -204,10 +204,10 @@ pub async fn exec_op(sys: &mut Sys, tr: &mut Track, op: &HOp, ctx: &mut CaseCtx)
             for (k, v) in &f {
                 let v = match (kind, k.as_str()) {
                     (0, "age") => Fv::Text("not a number".into()),
-                    (2, "body") => Fv::Null,
+                    (2, "score") => Fv::Null,
                     _ => v.clone(),
                 };
-                if *kind == 1 && k == "body" {
+                if *kind == 1 && k == "score" {
                     continue;
                 }
                 if d.set_field(k, v).is_err() {
